@@ -504,3 +504,25 @@ where
     }
     Ok(())
 }
+
+/// A deadline dimension for text-diff checks whose property is not about deadlines: one case in six
+/// builds its TextDiff under a deadline that has already passed (selector 10) or that runs out at one
+/// of the first probes of the (virtual) clock (selector 11) - the approximation is a text diff like
+/// any other.  Derived from the case content so that existing replay files keep their meaning.
+/// Returns the virtual-clock setting to install around the diff call (and to uninstall after it).
+pub fn deadline_dimension(c: &TextCase, cfg: &mut TextDiffConfig) -> (Option<u64>, bool) {
+    let sel = (c.old.0.len() * 7 + c.new.0.len() * 3 + c.tok as usize + c.alg as usize) % 12;
+    match sel {
+        10 => {
+            if let Some(past) = Instant::now().checked_sub(Duration::from_secs(5)) {
+                cfg.deadline(past);
+            }
+            (None, true)
+        }
+        11 => {
+            cfg.deadline(far_future());
+            (Some(1 + (c.old.0.len() % 4) as u64), true)
+        }
+        _ => (None, false),
+    }
+}
